@@ -86,3 +86,42 @@ Lemma ex_good_ok :
   W_C12 (final_obs ex_cs ex_good) = false /\ c12_side ex_cs ex_good = true /\ c12_noforeign ex_cs ex_good = true /\
   holds_C12 true ex_cs ex_good = true /\ holds_C12w true ex_cs ex_good = true.
 Proof. vm_compute. split; [eexists; reflexivity|]. repeat split; reflexivity. Qed.
+
+(* ---- enabledness (EnC12.v): three processes, 2 depends on 1, 3 is unrelated; an ordered shutdown has just taken
+   its snapshot [13; 12; 11] while all three run -------------------------------------------------------------- *)
+From PC.Sup Require Import EnC12.
+Definition ex3_cs : amap pconf := [(1, ex_conf [] false); (2, ex_conf [(1, CStarted)] false); (3, ex_conf [] false)].
+Definition ex3_pre : list (tid * event) :=
+ [(100, EApiBegin OpRun);
+  (100, ENewInst 11 1); (100, EState 11 SPending); (100, ERegAdd 11 1); (100, ESpawn 11 1);
+  (100, ENewInst 12 2); (100, EState 12 SPending); (100, ERegAdd 12 2); (100, ESpawn 12 2);
+  (100, ENewInst 13 3); (100, EState 13 SPending); (100, ERegAdd 13 3); (100, ESpawn 13 3);
+  (100, ERunSpawned);
+  (1, EBegin 11); (1, ERunChecked false); (1, EStarted); (1, EState 11 SRunning); (1, ELaunch true);
+  (2, EBegin 12); (2, EDoneGet 1 None); (2, ELookupMid 1); (2, ERegGet 1 (Some 11)); (2, EDepWait 1 (Some 11));
+  (2, EDepDone 1 true); (2, ERunChecked false); (2, EStarted); (2, EState 12 SRunning); (2, ELaunch true);
+  (3, EBegin 13); (3, ERunChecked false); (3, EStarted); (3, EState 13 SRunning); (3, ELaunch true);
+  (300, EApiBegin OpShutdown); (300, EShutdownCall); (300, EShutdownBegin); (300, EShutdownOrder [13; 12; 11])].
+
+Lemma ex3_ranked : ranked ex3_cs N.to_nat.
+Proof.
+  intros n c d Hg Hin. unfold ex3_cs in Hg. cbn [get] in Hg. revert Hg.
+  destruct (1 =? n) eqn:E1; [intros Hg; injection Hg as <-; destruct Hin|].
+  destruct (2 =? n) eqn:E2; [intros Hg; apply N.eqb_eq in E2; subst n; injection Hg as <-; destruct Hin as [<-|[]]; cbn; auto|].
+  destruct (3 =? n) eqn:E3; [intros Hg; injection Hg as <-; destruct Hin|discriminate].
+Qed.
+
+(* the hypotheses of the enabledness theorems hold there: the workers of 12 and of 13 can go (in either order),
+   the worker of 11 cannot (12, which depends on 1, has not completed) *)
+Lemma ex3_enabledness : exists s,
+  accept (init ex3_cs true) ex3_pre = Some s /\ sd_active s = Some (300, [13; 12; 11]) /\
+  all_done s [13; 12; 11] = false /\
+  dependents_done s [13; 12; 11] 12 = true /\ dependents_done s [13; 12; 11] 13 = true /\
+  dependents_done s [13; 12; 11] 11 = false /\
+  get 400 (threads s) = None /\ get 400 (thinst s) = None /\ get 401 (threads s) = None /\ get 401 (thinst s) = None /\
+  step s (400, EOrderedGo 11) = None /\
+  (exists s2, accept s [(400, EOrderedGo 12); (401, EOrderedGo 13)] = Some s2) /\
+  (exists s2, accept s [(401, EOrderedGo 13); (400, EOrderedGo 12)] = Some s2).
+Proof.
+  vm_compute. eexists. repeat split; try reflexivity; eexists; reflexivity.
+Qed.
